@@ -133,6 +133,7 @@ type iface struct {
 	def     []bool
 	typ     []string
 	nulldef []bool // `default:` written with a null value
+	noOutputs bool // reusable workflow without an `outputs:` section
 }
 
 var namePool = []string{"alpha", "Beta", "gamma", "delta", "Epsilon", "zeta"}
@@ -148,6 +149,7 @@ func genIface(r *hx.Rng) iface {
 		f.typ = append(f.typ, []string{"string", "number", "boolean"}[r.Intn(3)])
 		f.nulldef = append(f.nulldef, r.Chance(1, 4))
 	}
+	f.noOutputs = r.Chance(1, 3)
 	return f
 }
 
@@ -182,7 +184,11 @@ func (f iface) calleeYAML() string {
 			}
 		}
 	}
-	b.WriteString("    secrets:\n      tok:\n        required: true\n    outputs:\n      res:\n        value: ${{ jobs.j.outputs.o }}\njobs:\n  j:\n    runs-on: ubuntu-latest\n    outputs:\n      o: ${{ steps.s.outputs.v }}\n    steps:\n      - id: s\n        run: echo \"v=1\" >> \"$GITHUB_OUTPUT\"\n")
+	b.WriteString("    secrets:\n      tok:\n        required: true\n")
+	if !f.noOutputs {
+		b.WriteString("    outputs:\n      res:\n        value: ${{ jobs.j.outputs.o }}\n")
+	}
+	b.WriteString("jobs:\n  j:\n    runs-on: ubuntu-latest\n    outputs:\n      o: ${{ steps.s.outputs.v }}\n    steps:\n      - id: s\n        run: echo \"v=1\" >> \"$GITHUB_OUTPUT\"\n")
 	return b.String()
 }
 
@@ -250,6 +256,14 @@ func callerYAML(r *hx.Rng, act string, af iface, wf string, wfi iface) string {
 	}
 	if r.Chance(2, 3) {
 		b.WriteString("    secrets:\n      tok: ${{ secrets.T }}\n")
+	}
+	if r.Chance(1, 2) {
+		// the outputs of the call as seen by a dependent job (declared, undeclared)
+		b.WriteString("  after:\n    needs: [call]\n    runs-on: ubuntu-latest\n    steps:\n      - run: echo ${{ needs.call.outputs.res }} ${{ needs.call.outputs.nope }}\n")
+	}
+	if r.Chance(1, 5) {
+		// a malformed call of the same local workflow (a ref is not allowed on a local path)
+		fmt.Fprintf(&b, "  badcall:\n    uses: %s@main\n", wf)
 	}
 	return b.String()
 }
